@@ -35,7 +35,7 @@ def main(argv):
     c = vcheck.Check("C10", argv)
     cases, crashes, results = mirrorlib.mirror_check(
         c, ["C10", "C10Resume"], ["c10obs", "c10conv", "c10obs_shifted", "c10ahead", "c04", "c05"], "C10 restart",
-        quick=(40, 30), thorough=(500, 40), extra=["-crashes"])
+        quick=(40, 30), thorough=(500, 40), extra=["-crashes"], templates=[11])  # 11: a stop between the vote write and the position write of a round-skipping prevote message
     c.coverage["restart_failures"] = sum(1 for k in cases if k.get("restart_failed"))
     # the state-machine half: restarts of the real tmstate.StateMachine on the same stores (model walk with Stop/Start
     # events and the scripted restart histories of Model/SMScenarios.v): the round it resumes in is the one the stores
